@@ -12,13 +12,17 @@ class ThermalState:
     the captured thermal system (rows by name)"""
 
     def __init__(self, net, p):
-        from pandapipes.idx_node import TINIT, INFEED, NODE_TYPE_T
+        from pandapipes.idx_node import TINIT, INFEED, NODE_TYPE_T, PINIT, HEIGHT, PAMB
         from pandapipes.idx_branch import TOUTINIT, MDOTINIT, FROM_NODE, TO_NODE, FROM_NODE_T_SWITCHED
         self.net, self.p = net, p
         npit, bpit = net["_pit"]["node"], net["_pit"]["branch"]
         nn = H._pit_row_names(net, "node", npit)
         bn = H._pit_row_names(net, "branch", bpit)
         self.T = {n: npit[i, TINIT] for i, n in enumerate(nn)}
+        self.P = {n: npit[i, PINIT] for i, n in enumerate(nn)}
+        self.HGT = {n: npit[i, HEIGHT] for i, n in enumerate(nn)}
+        self.PAMB = {n: npit[i, PAMB] for i, n in enumerate(nn)}
+        self.brow = {b: i for i, b in enumerate(bn)}
         self.Tout = {b: bpit[i, TOUTINIT] for i, b in enumerate(bn)}
         self.m = {b: bpit[i, MDOTINIT] for i, b in enumerate(bn)}
         self.fn = {b: nn[int(bpit[i, FROM_NODE])] for i, b in enumerate(bn)}
@@ -136,7 +140,7 @@ def thermal_worker(job, oblig_fn, meta_prefix, pfkw=None, witnesses_fn=None, bui
                     continue
             r, m, how = D.check(hy, ob["goal"], sample="%s path %d %s" % (job["name"], pi, ob["label"]),
                                 timeout_ms=ob.get("timeout_ms", 8000),
-                                witness=(p.witness, H.witness_funcs()) if not ob.get("rows") else None)
+                                witness=(p.witness, H.witness_funcs()) if not (ob.get("rows") or ob.get("use_facts")) else None)
             if r == 'sat':
                 rp = {"spec": spec, "numba": numba, "label": ob["label"], "pfmode": kw["mode"],
                       "values": model_inputs(m, names)}
